@@ -403,3 +403,39 @@ Theorem C01_exec_total_typed :
     (L < 0 -> (n < 1000 * vfuel)%nat -> exists s', x = Ok s').
 Proof. exact compile_exec_total_typed. Qed.
 Print Assumptions C01_exec_total_typed.
+
+(* ===================== totality, unconditionally ===================== *)
+(* Every program the writer emits is accepted by the verifier (Proofs/CompileTyEmit.v compiled_tyck: a shape
+   function defined by recursion on the tree, every emitted instruction consistent with it, depth of the grouping
+   stack <= 2 * TrackCount), so path_ok needs no hypothesis: the interpreter with its real finite stacks, run on
+   the program of a supported2 tree, under any limit L and any interpreter fuel,
+     - never faults,
+     - returns when 1000*vfuel exceeds the number n of steps of the attempt (and L < 0),
+     - under a limit returns that same state (C01_compile_correct2_exec_partial: Spec.attempt's answer) or
+       ErrBacktrackingStackLimit (only if 0 <= L).
+   What is left of "_partial" in the C01 chain: reference fuel / text length <= 2^31-1, NAlternate non-empty and
+   0 <= m <= n in single-character loops (the parser builds nothing else); writer configuration cfg0 here (the
+   slot-map and quick-program theorems above reduce the other configurations to it for the "when it returns" half). *)
+From Verif Require Import Proofs.CompileTyEmit Proofs.CompileSafe.
+
+Theorem C01_every_compiled_program_is_control_flow_safe :
+  forall c root p, codes p = fst (compile c root) -> track_count (codes p) <= trackcount p ->
+  forall e t, path_ok e p (a0 p t).
+Proof. exact compiled_path_ok. Qed.
+Print Assumptions C01_every_compiled_program_is_control_flow_safe.
+
+Theorem C01_exec_total :
+  forall (e : env) (p : program), 0 <= trackcount p -> track_count (codes p) <= trackcount p -> tlen e <= INF ->
+  forall fuel o body t0 r,
+  let root := NCapture o 0 (-1) body in
+  codes p = fst (compile cfg0 root) -> strings p = snd (compile cfg0 root) ->
+  supported2 root = true -> groups_ok2 (capsize p) root -> 0 <= t0 <= tlen e -> Z.of_nat fuel <= INF ->
+  attempt e fuel root t0 = Ok r ->
+  exists n : nat, forall L vfuel,
+    let x := exec_at e p L vfuel t0 in
+    ((x = Err E_StackLimit /\ 0 <= L) \/
+     ((n < 1000 * vfuel)%nat /\ exists s', x = Ok s') \/
+     ((1000 * vfuel <= n)%nat /\ x = Fuel)) /\
+    (L < 0 -> (n < 1000 * vfuel)%nat -> exists s', x = Ok s').
+Proof. exact compile_exec_total. Qed.
+Print Assumptions C01_exec_total.
